@@ -55,6 +55,7 @@ var commands = map[string]command{
 	"versions-replay":     versionsReplay,
 	"vdrapi-replay":       vdrapiReplay,
 	"identifiers-replay":  identifiersReplay,
+	"clientapi-replay":    clientapiReplay,
 	"clientsend-replay":   clientsendReplay,
 	"patcharray-replay":   patcharrayReplay,
 	"chain-replay":        chainReplay,
